@@ -550,6 +550,15 @@ impl Epoch {
 
         let s = s_in.trim();
 
+        // The grammar is ASCII only. The tokenizer below slices by character index, which is
+        // only a valid byte index in ASCII strings.
+        if !s.is_ascii() {
+            return Err(HifitimeError::Parse {
+                source: ParsingError::ISO8601,
+                details: "parsing as Gregorian",
+            });
+        }
+
         for (idx, char) in s.chars().enumerate() {
             if !char.is_numeric() || idx == s.len() - 1 {
                 if cur_token == Token::Timescale {
@@ -587,7 +596,13 @@ impl Epoch {
                         prev_token.value_ok(val)?;
                         // If these are the subseconds, we must convert them to nanoseconds
                         if prev_token == Token::Subsecond {
-                            if end_idx - prev_idx != 9 {
+                            if end_idx - prev_idx > 9 {
+                                // More digits than nanoseconds
+                                return Err(HifitimeError::Parse {
+                                    source: ParsingError::ISO8601,
+                                    details: "more than nine subsecond digits",
+                                });
+                            } else if end_idx - prev_idx != 9 {
                                 decomposed[pos] =
                                     val * 10_i32.pow((9 - (end_idx - prev_idx)) as u32);
                             } else {
